@@ -40,9 +40,9 @@ type outRec struct {
 	Flags   int
 	Round   int32 // engine round/step when the hook ran
 	Step    int
-	ReqID   int // import / propose request number
+	ReqID   int  // import / propose request number
 	SyncErr bool // import / propose returned an error synchronously
-	Inc     int // engine incarnation
+	Inc     int  // engine incarnation
 }
 
 type recorder struct {
